@@ -67,7 +67,9 @@ let mismatch ~case ~step ~field ~model ~impl =
 
 let predfail ~case ~step ~pred ~kf ~detail =
   if kf = "none" then incr predfails else incr predfails_kf;
-  if (!predfails + !predfails_kf) <= 200 then
+  (* print caps are per class, so that many failures inside a known class can never hide a
+     failure outside every class (kf = "none") *)
+  if (if kf = "none" then !predfails <= 200 else !predfails_kf <= 200) then
     Printf.printf "PREDFAIL case=%s step=%d pred=%s kf=%s detail=%s\n" case step pred kf detail;
   bump ("predfail:" ^ pred ^ ":" ^ kf)
 
